@@ -25,8 +25,12 @@ FINDINGS = os.path.join(ROOT, "known_findings.json")
 # (runs, ops per run, workers) per tier
 TIERS = {
     "C01": {"quick": (96, 10, 16), "thorough": (4000, 24, 16)},
+    "C16": {"quick": (128, 14, 16), "thorough": (6000, 30, 16)},
+    # C14: 98 (class, parameter) pairs; index // 98 = variant: 0,1 enumerate the catalogue on a full model, >= 2
+    # place catalogue faults at random points of seeded histories (nops applies to history mode only)
+    "C14": {"quick": (98 * 2 + 60, 400, 16), "thorough": (98 * 2 + 3000, 400, 16)},
 }
-LEVEL = {"C01": "exploration"}
+LEVEL = {"C01": "exploration", "C16": "exploration", "C14": "fault_enumeration"}
 WORKER_TIMEOUT = {"quick": 900, "thorough": 4 * 3600}
 
 
@@ -51,12 +55,16 @@ def finding_matches(f, v, replay):
     """Narrow match of a violation against an *open* known finding."""
     if f.get("status") != "open":
         return False
-    if f["oracle"] != v["oracle"]:
-        return False
     m = f.get("match", {})
+    if "oracles" not in m and f["oracle"] != v["oracle"]:
+        return False
     if "where_subset_of" in m and not set(v["where"]) <= set(m["where_subset_of"]):
         return False
     if "where_any" in m and not (set(v["where"]) & set(m["where_any"])):
+        return False
+    if "where_prefixes" in m and not all(any(w.startswith(p) for p in m["where_prefixes"]) for w in v["where"]):
+        return False
+    if "oracles" in m and v["oracle"] not in m["oracles"]:
         return False
     if "op_kinds" in m and v.get("op_kind") not in m["op_kinds"]:
         return False
@@ -208,6 +216,8 @@ def check(prop, tier, seed, runs=None, nops=None, workers=None, opts=None):
             problems.append(f"run {r['index']}: {r['harness_error'][-1200:]}")
         if r.get("violation"):
             violations.append(r)
+        for extra in r.get("more", []):
+            violations.append({"index": r["index"], "violation": extra["violation"], "replay": extra["replay"]})
     known_hits = Counter()
     unknown = {}
     for r in violations:
@@ -219,13 +229,17 @@ def check(prop, tier, seed, runs=None, nops=None, workers=None, opts=None):
         key = (v["oracle"], tuple(v["where"]), v.get("op_kind"))
         unknown.setdefault(key, []).append(r)
     reported = []
+    if unknown and os.environ.get("EFSIM_LIST_CLASSES"):
+        for key, rs in sorted(unknown.items(), key=lambda kv: -len(kv[1])):
+            print(f"CLASS x{len(rs)} oracle={key[0]} op={key[2]} where={list(key[1])[:6]} :: "
+                  f"{(rs[0]['violation'].get('detail') or '')[:300]}", file=sys.stderr)
     budget = 150 if tier == "quick" else 600
-    max_classes = 4 if tier == "quick" else 12
+    max_classes = int(os.environ.get("EFSIM_MAX_CLASSES", "4" if tier == "quick" else "12"))
     for n, (key, rs) in enumerate(sorted(unknown.items(), key=lambda kv: (len(kv[1][0]["replay"]["ops"]), kv[0]))):
         if n >= max_classes:
             break
         r = min(rs, key=lambda x: len(x["replay"]["ops"]))
-        tag = f"{prop}-s{seed}-r{r['index']}"
+        tag = f"{prop}-s{seed}-r{r['index']}" + (f"-step{r['violation'].get('step')}" if r.get("replay") and r["violation"].get("step") is not None and "more" not in r and any(x is not r and x["index"] == r["index"] for x in violations) else "")
         path, info = minimise_and_confirm(prop, r["replay"], tag, budget)
         if path is None:
             problems.append(f"violation in run {r['index']} ({key[0]}) did not reproduce when replayed: {info}")
